@@ -31,6 +31,7 @@ func init() {
 func runC16(c *an.Ctx) {
 	p := c.P
 	ruleI5(c)
+	ruleI6(c)
 	corePath := an.ModPath + pkgCore
 	synPath := an.ModPath + pkgSyntax
 	entryNames := []string{"BuildCallAst", "convertToExp", "BuildDataForAst", "(*InvocationData).BuildCallAst", "(*Fork).writeInvocation", "fixExpressionTypes", "InvocationDataFromSource"}
@@ -286,13 +287,49 @@ func runC16(c *an.Ctx) {
 				if r.Op != token.ILLEGAL || !r.Truth || !isBoolType(r.X.Type()) {
 					return false
 				}
+				// the haystack: the parameter, or a copy/sorted copy of it (slices.Clone, append([]string(nil), p...))
+				var fromParam func(v ssa.Value, d int) bool
+				fromParam = func(v ssa.Value, d int) bool {
+					if d > 4 {
+						return false
+					}
+					if splitParams[v] {
+						return true
+					}
+					switch y := v.(type) {
+					case *ssa.Call:
+						for _, a := range y.Call.Args {
+							if fromParam(a, d+1) {
+								return true
+							}
+						}
+					case *ssa.Slice:
+						return fromParam(y.X, d+1)
+					case *ssa.Phi:
+						for _, e := range y.Edges {
+							if fromParam(e, d+1) {
+								return true
+							}
+						}
+					}
+					return false
+				}
 				switch x := r.X.(type) {
 				case *ssa.Phi:
 					return true
 				case *ssa.Call:
 					for _, a := range x.Call.Args {
-						if splitParams[a] {
+						if fromParam(a, 0) {
 							return true
+						}
+					}
+				case *ssa.Extract:
+					// `_, found := slices.BinarySearch(list, id)`
+					if cl, ok := x.Tuple.(*ssa.Call); ok {
+						for _, a := range cl.Call.Args {
+							if fromParam(a, 0) {
+								return true
+							}
 						}
 					}
 				}
